@@ -24,6 +24,8 @@ func init() {
 			"ExecutionEngine.Execute reaches planning only through the success edges of normalization (when needed), then of ValidateForSchema (err == nil ∧ Valid), and reaches the resolver only when planning reported no error; ValidateForSchema validates with DefaultOperationValidator and the validator reports Invalid whenever the report has errors. " +
 			"It does not decide accept ⇔ spec-valid for all documents (that is the rules' own logic).",
 		Mutants: []Mutant{
+			{Name: "variables inside object literals are not looked for (reverts part of the F71 fix)", File: "v2/pkg/astvalidation/operation_rule_all_variable_uses_defined.go", Rule: "C04-R14", Key: "AllVariableUsesDefined/container-kinds-descended",
+				Old: "\tcase ast.ValueKindObject:\n\t\tfor _, ref := range a.operation.ObjectValues[value.Ref].Refs {\n\t\t\tif !a.checkValue(argument, a.operation.ObjectFieldValue(ref)) {\n\t\t\t\treturn false\n\t\t\t}\n\t\t}\n", New: ""},
 			{Name: "required arguments are enforced on fields only (reverts the F70 fix)", File: "v2/pkg/astvalidation/operation_rule_required_arguments.go", Rule: "C04-R13", Key: "RequiredArguments/covers:Directive",
 				Old: "func (r *requiredArgumentsVisitor) EnterDirective(ref int) {", New: "func (r *requiredArgumentsVisitor) enterDirective(ref int) {",
 				Also: [][2]string{{"\t\twalker.RegisterEnterDirectiveVisitor(&visitor)\n", ""}}},
@@ -81,6 +83,7 @@ func runC04(r *fw.Run) {
 	defer c04UnorderedElementsPairedByName(r)
 	defer c04SubscriptionRootFieldsSeenThroughFragments(r)
 	defer c04RequiredArgumentsCoverEveryArgumentBearer(r)
+	defer c04VariableUsesFoundAtEveryDepth(r)
 	p := r.Prog
 	pk := p.Pkg("astvalidation")
 	if pk == nil {
@@ -975,4 +978,77 @@ func c04RequiredArgumentsCoverEveryArgumentBearer(r *fw.Run) {
 			"the walker visits arguments below "+b+" nodes, but "+vt+" has no Enter"+b+": a "+strings.ToLower(b)+" is admitted without the arguments its definition requires (`{ dog @skip { name } }`, `@dreq` with `directive @dreq(x: Int!) on FIELD`)")
 	}
 	r.Expect("C04-R13", "node kinds that take arguments (from the walker)", len(bearers), 2)
+}
+
+// c04VariableUsesFoundAtEveryDepth (R14): "every variable an operation uses is defined by it" is a statement about all
+// uses, and a variable can be the whole value of an argument or sit at any depth of a list or input object literal. The
+// rule that checks the uses cannot leave the nested ones to the value rule: a literal given to a custom scalar is not
+// looked into by anything else. In the visitor of the rule constructor AllVariableUsesDefined the value of an argument is
+// dispatched over ast.ValueKind with arms for Variable and for both container kinds (List, Object), and the container
+// arms descend (call a method of the visitor).
+func c04VariableUsesFoundAtEveryDepth(r *fw.Run) {
+	p := r.Prog
+	r.Rule("C04-R14", "the AllVariableUsesDefined rule looks for variable uses at every depth: its visitor dispatches argument values over ast.ValueKind with arms for Variable, List and Object, and the container arms descend")
+	ctor := p.Func("astvalidation", "AllVariableUsesDefined")
+	kindT := p.Named("ast", "ValueKind")
+	if ctor == nil || kindT == nil {
+		r.Error("C04-R14: rule constructor AllVariableUsesDefined / ast.ValueKind not found")
+		return
+	}
+	cinfo := ctor.Info()
+	var vt string
+	fw.WalkAll(ctor.Decl.Body, func(nd ast.Node) bool {
+		if cl, ok := nd.(*ast.CompositeLit); ok {
+			if n, isNamed := cinfo.TypeOf(cl).(*types.Named); isNamed && n.Obj().Pkg() == ctor.Obj.Pkg() {
+				vt = n.Obj().Name()
+			}
+		}
+		return true
+	})
+	descends := map[string]bool{}
+	covered := map[string]bool{}
+	for _, fi := range p.Funcs("astvalidation") {
+		if !strings.HasPrefix(fi.Name(), vt+".") {
+			continue
+		}
+		info := fi.Info()
+		// a comparison with the constant recognises variable values as well as a switch arm does
+		fw.WalkAll(fi.Decl.Body, func(nd ast.Node) bool {
+			if b, ok := nd.(*ast.BinaryExpr); ok {
+				for _, e := range []ast.Expr{b.X, b.Y} {
+					if k := fw.ConstObj(info, e); k != nil && k.Name() == "ValueKindVariable" {
+						covered["ValueKindVariable"] = true
+					}
+				}
+			}
+			return true
+		})
+		for _, sw := range fw.ConstSwitches(fi, kindT) {
+			for _, c := range sw.Stmt.(*ast.SwitchStmt).Body.List {
+				cc := c.(*ast.CaseClause)
+				rec := false
+				for _, st := range cc.Body {
+					fw.WalkAll(st, func(nd ast.Node) bool {
+						if call, ok := nd.(*ast.CallExpr); ok {
+							if callee := p.FuncOf(fw.Callee(info, call)); callee != nil && strings.HasPrefix(callee.Name(), vt+".") {
+								rec = true
+							}
+						}
+						return true
+					})
+				}
+				for _, e := range cc.List {
+					if k := fw.ConstObj(info, e); k != nil {
+						covered[k.Name()] = true
+						if rec {
+							descends[k.Name()] = true
+						}
+					}
+				}
+			}
+		}
+	}
+	r.Check(covered["ValueKindVariable"], "C04-R14", "AllVariableUsesDefined/variable-arm", p.Pos(ctor.Decl.Pos()), "the visitor of AllVariableUsesDefined has an arm for variable values", "no arm for ValueKindVariable was found in "+vt+": the rule no longer recognises a variable use")
+	r.Check(descends["ValueKindList"] && descends["ValueKindObject"], "C04-R14", "AllVariableUsesDefined/container-kinds-descended", p.Pos(ctor.Decl.Pos()), "the visitor of AllVariableUsesDefined descends into list and object literals",
+		vt+" does not descend into both container kinds (List, Object): `{ arg(c: [$undef]) }` / `{ arg(c: {x: $undef}) }` with `scalar Custom` — a literal no other rule looks into — is admitted with a variable the operation does not define, and reaches planning with a dangling variable")
 }
